@@ -31,6 +31,27 @@ claim('C17',
       'computation uses SafeInt) is not part of the claim.',
       'DESIGN.md 4 C17')
 
+claim('C10',
+      'Contracts on the real StdBackend range predicates (IsProblemSolved, IsProblemSolvedOrFeasible, IsProblemInfeasible, '
+      'IsProblemUnbounded, IsProblemIndiffInfOrUnb, IsProblemInfOrUnb, IsSolStatusRetrieved) with postconditions equal to '
+      'the documented ranges of the statement, for EVERY int code (not only -200..999); a lemma tying the enum sol::Status '
+      'constants to the documented numbers; and the objective block of ReportSolution2AMPL proved to write the objective '
+      'exactly when the code is a solution candidate and an objective value exists.',
+      'Trusted: CBMC, extractor, SolveCode() as one ghost int (no override in the tree), writer/format calls as stubs. '
+      'Not decided: that the .sol file carries SolveCode() unchanged (C++ formatting path), the -! table.',
+      'DESIGN.md 4 C10')
+claim('C12',
+      'Contracts on the real BasicSolver option accessors (SetObjNo, GetObjNo, objno_specified, is_objno_specified, '
+      'multiobj, notify_*, objno_used), the SolverNLHandlerImpl overrides, NLProblemBuilder::{resulting_nobj, NeedObj, '
+      'resulting_obj_index}, the objno range check of OnHeader and the O-segment case of NLReader::Read; the statement\'s '
+      'clauses (all / exactly the k-th / none, rejection beyond the file, index safety, echoed objno) are a lemma proved '
+      'over those contracts for every option state, objective count and index.',
+      'Trusted: CBMC, extractor, one solver object with members as globals, virtual dispatch resolved to the '
+      'SolverNLHandlerImpl overrides, invariant objno_ >= -1 (proved for SetObjNo, initialiser read from the source). '
+      'Not decided: discarding of skipped objective expressions/G segments (recursive readers), flattener objective '
+      'conversion, the objno line of the .sol writer.',
+      'DESIGN.md 4 C12')
+
 for pid, reason in [
     ('C01', 'relational whole-pipeline equivalence across ~12k lines of CRTP templates; no function boundary carries it and the code is outside the mechanically extractable C subset (DESIGN.md 5)'),
     ('C09', 'whole-process behaviour (exit status, files, exception propagation through try/catch) - not expressible as function contracts here (DESIGN.md 5)'),
